@@ -58,7 +58,7 @@ theorem step_ord (P : Prog) (s s' : State) (t : Nat) (h : step P s t = some s') 
     refine ⟨fun k hk => ?_, by rcases o2 with o2 | o2 <;> omega, fun k hk hk' => ?_⟩
     · by_cases hkt : k = t
       · subst hkt; exact o1
-      · rcases oth k hkt with h1 | h1 | ⟨h0, _, _⟩ | ⟨_, h1⟩
+      · rcases oth k hkt with h1 | h1 | ⟨h0, _, _, _⟩ | ⟨_, h1⟩
         · rw [h1]
         · rw [h1]
         · exact absurd h0 hk
@@ -171,7 +171,7 @@ theorem treeInv_thr (P : Prog) (wf : WFProgress P) (s s' : State) (t : Nat) (h :
         | cb c _ _ h3 => rw [h3] at h2; cases h2
         | atexitDone _ _ _ h3 => rw [h3] at h2; cases h2
       refine ⟨hkt, ?_⟩
-      rcases oth k hkt with h3 | h3 | ⟨_, _, h3⟩ | ⟨h0, _⟩
+      rcases oth k hkt with h3 | h3 | ⟨_, _, _, h3⟩ | ⟨h0, _⟩
       · rw [h3] at h2; exact absurd h2 h1
       · rw [h3] at h2; exact absurd h2 h1
       · rw [h3] at h2; cases h2
